@@ -2,6 +2,7 @@ package calcium
 
 import (
 	"context"
+	"sort"
 	"sync"
 
 	enginefactory "github.com/projecteru2/core/engine/factory"
@@ -291,9 +292,16 @@ func (c *Calcium) filterNodes(ctx context.Context, nodeFilter *types.NodeFilter)
 			return
 		}
 		// sorted by nodenames
-		nodenames := utils.Map(ns, func(node *types.Node) string { return node.Name })
+		sort.SliceStable(ns, func(i, j int) bool { return ns[i].Name < ns[j].Name })
 		// unique
-		p := utils.Unique(nodenames, func(i int) string { return nodenames[i] })
+		p := 0
+		for _, n := range ns {
+			if p > 0 && ns[p-1].Name == n.Name {
+				continue
+			}
+			ns[p] = n
+			p++
+		}
 		ns = ns[:p]
 	}()
 
